@@ -457,11 +457,13 @@ func shrinkNondet(tr *Trace) *Trace {
 	return cur
 }
 
-// replayC13 re-runs a recorded trace in 8 fresh processes x 2 in-process executions; reproduces if >= 2 digests differ.
+// replayC13 re-runs a recorded trace in 8-24 fresh processes x 2 in-process executions; reproduces if >= 2 digests differ.
 func replayC13(path string, quiet bool) int {
 	bin := selfBin()
 	digests := map[uint64]int{}
-	for i := 0; i < 8; i++ {
+	// 8 processes first; up to 24 when no difference has shown yet (a dependence on goroutine or collector timing may need
+	// more tries than a dependence on map order)
+	for i := 0; i < 24 && (i < 8 || len(digests) < 2); i++ {
 		cfg := c13Configs[i%len(c13Configs)]
 		cmd := exec.CommandContext(watchdogCtx(120), bin, "special", "digests", "-file", path, "-gcvar", fmt.Sprint(cfg.GCVar))
 		cmd.Env = append(os.Environ(), cfg.Env...)
@@ -476,7 +478,7 @@ func replayC13(path string, quiet bool) int {
 		}
 	}
 	if !quiet {
-		fmt.Printf("replay: %d distinct digests over 16 executions: %v\n", len(digests), digests)
+		fmt.Printf("replay: %d distinct digests over the executions: %v\n", len(digests), digests)
 	}
 	if len(digests) >= 2 {
 		fmt.Printf("VIOLATION property=C13 replay=%s\n", path)
